@@ -182,6 +182,7 @@ def r2_answers(ctx):
     pm, meths = _profile_cls(ctx)
     sp = pm.func("setup_profile")
     cfg = CFG(sp)
+    _model_answer_guard(ctx, sp)
     answers = {}
     for st in walk_no_nested(sp, False):
         if isinstance(st, ast.Assign) and isinstance(st.value, ast.Call) and \
@@ -510,6 +511,48 @@ def _derived(value, var, fn, depth=0):
     return False
 
 
+def _model_answer_guard(ctx, sp):
+    """the chosen model is stored unless it *is* the stored one: the only
+    admissible reason to skip the store of a valid answer is that the value
+    to be stored equals the stored value"""
+    from ..symres import Resolver as _R
+    R = _R(sp, keep={"mod", "models", "pf"})
+    stores = [st for st in walk_no_nested(sp, False)
+              if isinstance(st, ast.Assign)
+              and norm(st.targets[0]) == "pf['model_key']"]
+    ctx.floor("stores of the chosen model", len(stores), 1)
+    for st in stores:
+        val = R.text(st.value)
+        for a in conditions_at(st):
+            t = R.text(a.node)
+            if a.text in ("mod",) or t == "mod":
+                continue
+            if isinstance(a.node, ast.Compare) and len(
+                    a.node.ops) == 1 and isinstance(
+                    a.node.ops[0], ast.Eq) and not a.pol:
+                l_, r_ = R.text(a.node.left), R.text(a.node.comparators[0])
+                sides = {l_, r_}
+                if sides == {val, "pf['model_key']"}:
+                    continue          # skipped only when nothing changes
+                # a comparison of the answer with the current position:
+                # equal positions must mean equal models
+                cur = "models.index(pf['model_key'])"
+                if cur in sides:
+                    other = (sides - {cur}).pop() if len(sides) == 2 else cur
+                    same = val.replace(other, cur)
+                    ok = same in (f"models[{cur}]",)
+                    ctx.check(ok, st, "skip test agrees with the stored "
+                              "value",
+                              f"setup_profile skips storing the chosen model "
+                              f"when `{other} == {cur}`, but the value it "
+                              f"would store is `{val}`: for that answer the "
+                              f"chosen model is `{same}`, not the stored "
+                              "one - the answer naming the neighbouring "
+                              "model is silently dropped")
+                    continue
+            raise Undecided(f"setup_profile: model stored under {a!r}")
+
+
 def r3_preprocessing_order(ctx):
     pm, meths = _profile_cls(ctx)
     sp = pm.func("setup_profile")
@@ -650,6 +693,18 @@ def r4_persistence(ctx):
                         st.targets[0].slice, ast.Constant):
             fmt = str_template(st.targets[0].slice)
             w[fmt] = norm(st.value)
+            lp_ = st
+            while lp_ is not None and not isinstance(lp_, ast.For):
+                lp_ = getattr(lp_, "_parent", None)
+            cs_ = conditions_at(st, stop=lp_) if lp_ is not None else \
+                conditions_at(st)
+            ctx.check(not cs_, st, f"'{fmt}' written for every parameter",
+                      f"set_fit_params writes '{fmt}' only when "
+                      + " and ".join(repr(a) for a in cs_)[:80]
+                      + ": an entry stored earlier is not overwritten when "
+                      "the new value fails that test (e.g. equals the model "
+                      "default), so the profile keeps the old value and "
+                      "get_fit_params does not return what was written")
     ctx.check(w == {"fit param {} value": "params[p].value",
                     "fit param {} vary": "params[p].vary"}, sf,
               "set_fit_params writes value and vary under their keys",
